@@ -257,6 +257,12 @@ type qgen struct {
 	g    *storeGen
 	mode string
 	hist map[string]int
+	// meta: no LIMIT; the parts of the last generated query are kept for the metamorphic variants (C14)
+	meta     bool
+	lastProj []string
+	lastCls  []string
+	lastOuts []string
+	lastTail string
 }
 
 var qNodes = []*node.Node{}
@@ -532,6 +538,7 @@ func (q *qgen) queryText(graphs []string) string {
 		proj = []string{"?a"}
 	}
 	text := fmt.Sprintf("select %s from %s where { %s }", strings.Join(proj, ", "), strings.Join(graphs, ", "), where)
+	q.lastProj, q.lastCls, q.lastTail = proj, cls, ""
 	outs := func() []string {
 		var o []string
 		for _, p := range proj {
@@ -603,11 +610,16 @@ func (q *qgen) queryText(graphs []string) string {
 	// the global time bound comes after HAVING and before LIMIT
 	switch r.intn(12) {
 	case 0:
-		text += " before " + fmtT(qt1)
+		q.lastTail = " before " + fmtT(qt1)
 	case 1:
-		text += " after " + fmtT(qt1)
+		q.lastTail = " after " + fmtT(qt1)
 	case 2:
-		text += " between " + fmtT(qt0) + ", " + fmtT(qt1)
+		q.lastTail = " between " + fmtT(qt0) + ", " + fmtT(qt1)
+	}
+	text += q.lastTail
+	q.lastOuts = outs
+	if q.meta {
+		return text + ";"
 	}
 	if q.mode == "limit" || (q.mode != "optional" && r.chance(1, 10)) {
 		text += fmt.Sprintf(` limit "%d"^^type:int64`, r.intn(4))
